@@ -141,6 +141,9 @@ pub enum Step {
     Drop,
     /// after completion, poll once more (documented panic for non-stream futures)
     PollAfterDone,
+    /// re-poll with a different waker that shares the DATA pointer of the current one and
+    /// differs only in its vtable (`will_wake` must still say "different")
+    PollSibling,
 }
 
 /// `bias`: 0 = neutral, 1 = cancellation-heavy (C15), 2 = re-poll-heavy (C16).
@@ -166,6 +169,7 @@ pub fn decode_script(a: u8, b: u8, bias: u8) -> [Step; 4] {
             (10, 2) | (11, 2) => Step::PollNew,
             (12, 2) => Step::WaitPoll,
             (14, 2) => Step::PollAfterDone,
+            (15, _) => Step::PollSibling,
             _ => Step::Await,
         };
     }
